@@ -9,6 +9,10 @@ CHECKS = {
    text="Runtime monitoring of the real x86 assembler (ASan+UBSan build, strict validation): every database form x mode x systematic operand/prefix/decoration variants (1.3e5 emits quick, ~2e6 thorough) judged by three monitors: our field-level decoder applying the database's encoding rule to the case, GNU objdump's reading of AsmJit's bytes vs. its reading of the same instruction assembled by llvm-mc, and instruction-length agreement of objdump/LLVM. Held on the cases emitted; forms unknown to both decoders get the database-rule verdict only.",
    design_ref="DESIGN.md section 2, C01", note="Trusts objdump 2.40, LLVM 14, vlib/xdec.py and vlib/x86text.py (harness). UBSan shift-base disabled (arithmetic shifts of negatives are defined behaviour for the compilers/standard the tree targets).",
    technique="sanitizer build + differential decoding against independent assembler/decoders + database-rule decoder"),
+ "C08": dict(category="exploration",
+   text="Runtime monitoring under ASan+UBSan, differential at the API boundary: seeded scripts of emitter calls (instructions with 0-6 operands, options, extra register, inline comments; forward/backward jumps and label memory operands; align; embed, embed_data_array, embed_const_pool, embed_label, embed_label_delta; comments; 1-4 sections) on x86-32, x86-64 and AArch64 are replayed into an Assembler, a Builder+finalize and a Compiler+finalize, and - after random node-list edits (remove_node, remove_nodes, re-insertion through set_cursor/add_node/add_before/add_after, cursor moves followed by new calls) tracked by an independent list+cursor model - into an Assembler fed the edited sequence; bytes, section sizes, label offsets, relocations, fixups and the first error code must agree; violating scripts are delta-debugged to a minimal script.",
+   design_ref="DESIGN.md section 2, C08", note="Function/invoke/jump-annotation nodes are out of reach without functions (C05 covers them); logger text differences are reported without verdict.",
+   technique="sanitizer build + differential monitor (Assembler vs Builder vs Compiler vs edited-sequence model)"),
  "C09": dict(
    category="exploration",
    text="Runtime monitoring: bounded-exhaustive (depth 5 quick / 6 thorough over a small op alphabet) and random histories (to 1e5 ops) of the real JitAllocator under ASan+UBSan, every step judged by a sequential model (interval map, shadow contents, statistics, reuse, fill pattern, retention policy) and by hook H2 walking the allocator's bookkeeping under its own lock. Held on the histories executed, nothing more.",
@@ -20,6 +24,10 @@ CHECKS = {
    text="Runtime monitoring over the public API: every database form in allowed and excluded modes plus near-miss mutations, each validated directly, emitted with and without strict validation; verdicts and bytes compared; vendored list of forms accepted by the pinned release; name round trip over all ids of x86/x64/AArch64 and every alias spelling.",
    design_ref="DESIGN.md section 2, C13", note="AArch64 has no operand validator: only its names are judged here. 'Implemented' = vendor/implemented_x86.json generated from the pinned tree.",
    technique="differential monitoring of validator vs. encoder verdicts under sanitizers"),
+ "C16": dict(category="exploration",
+   text="Runtime monitoring under ASan+UBSan+LSan: random histories (24000 quick, 1.2e6 thorough) over one CodeHolder (dynamic or static arena memory) and an Assembler, Builder and Compiler per x86-64/x86-32/AArch64: init with/without base, attach (also wrong family), detach, soft/hard reset, reinit, program generation from 22 generators (errors, unbound labels, sections, far calls with address table, const pools, Compiler functions with spills/invokes/jump tables, functions left open), post-processing, pending one-shot state, emitter destruction, logger/handler/diagnostic changes, heap noise; whenever the objects are clean a probe program is generated and every call's error code, sections, labels, relocations, fixups and final image are compared with the same program on fresh objects; public emitter/holder state is snapshotted against fresh objects before every first use; retired loggers/handlers are watched for late calls; alarms are delta-debugged in forked children.",
+   design_ref="DESIGN.md section 2, C16", note="Arena memory reused after a soft reset is not poisoned: a stale pointer is seen through the state snapshot or when it changes output.",
+   technique="sanitizer build + state-snapshot and differential monitor (recycled vs fresh objects)"),
  "C17": dict(
    category="exploration",
    text="Runtime monitoring of the displacement and immediate codecs under ASan+UBSan: every offset format the back ends construct (collected at run time) and a grid of generic formats, exhaustively for fields <= 21 bits (quick) / 26 bits (thorough) plus bands outside the range, judged by independent decoders; all AArch64 logical immediates (ground truth by decoding every N:immr:imms), all FP8 immediates, add/sub, move-wide sequences and bitfield positions through the public emitter, sampled cross-check with llvm-mc. exhaustive_subspaces in the evidence name what was enumerated completely.",
